@@ -101,13 +101,28 @@ class Plain:
     def __init__(self): self.a = 1
     def __eq__(self, o): return isinstance(o, Plain)
     __hash__ = None
+class Shelf:
+    # a container written the old way: indexing only (membership, iteration and reversed() fall back on it)
+    def __init__(self, *items): self.items = list(items)
+    def __getitem__(self, i): return self.items[i]
+    def __len__(self): return len(self.items)
+    def __repr__(self): return 'Shelf' + repr(tuple(self.items))
+    def __eq__(self, o): return isinstance(o, Shelf) and o.items == self.items
+    __hash__ = None
+class Bag:
+    # a container that can only be iterated over
+    def __init__(self, *items): self.items = list(items)
+    def __iter__(self): return iter(self.items)
+    def __repr__(self): return 'Bag' + repr(tuple(self.items))
+    def __eq__(self, o): return isinstance(o, Bag) and o.items == self.items
+    __hash__ = None
 '''
 
 VALUES = ['0', '1', '-1', '2', '7', '-3', '10**20', '0.0', '1.5', '-2.5', '3.0', '2.675', "float('inf')", "float('nan')",
           'True', 'False', '(1+2j)', "''", "'a'", "'abc'", "'x y'", "'%d items'", "'3'", "b'ab'",
           '[]', '[1, 2, 3]', "['a', 'b']", '[[1], [2]]', '()', '(1, 2)', "('a', 1)", '{}', "{'a': 1}", "{1: 'x', 2: 'y'}",
           'set()', '{1, 2}', "{'a'}", 'frozenset({1})', 'range(3)', 'None', 'Vec(3)', 'Vec(0)', 'Plain()', 'Coin(5)', 'Coin(0)', 'Color.RED', 'Color.BLUE', 'Masked()', '[1.5, None]',
-          "'ab' * 3", '255', '1e300', '-0.0']
+          "'ab' * 3", '255', '1e300', '-0.0', 'Shelf(1, 2, 7)', "Bag('a', 1)"]
 
 CLASSES = ['int', 'str', 'bool', 'float', 'list', 'object', 'Vec', 'Plain', 'Color', '(int, str)', '(Vec, bool)', 'type(None)']
 KEYS = ['slice(0, 2)', 'slice(None, None, -1)', 'slice(1, None)']
